@@ -170,9 +170,11 @@ func c48RawGen(t *rapid.T) c48Raw {
 	default:
 		c.Op = uint16(rapid.IntRange(0, 255).Draw(t, "op8"))
 	}
-	sk := rapid.OneOf(rapid.SampledFrom([]uint8{0, 0, 0, 1, 2, 255}), rapid.Uint8())
-	c.Jt = sk.Draw(t, "jt")
-	c.Jf = sk.Draw(t, "jf")
+	if rapid.IntRange(0, 2).Draw(t, "skips") == 0 { // mostly Jt = Jf = 0: only conditional jumps carry them
+		sk := rapid.OneOf(rapid.SampledFrom([]uint8{0, 1, 2, 255}), rapid.Uint8())
+		c.Jt = sk.Draw(t, "jt")
+		c.Jf = sk.Draw(t, "jf")
+	}
 	switch rapid.IntRange(0, 3).Draw(t, "kKind") {
 	case 0:
 		c.K = rapid.Uint32().Draw(t, "k")
@@ -228,14 +230,14 @@ func c48ReplayEnum[C any](t *testing.T, subPrefix string, check func(C) error) b
 	return true
 }
 
-func c48NoteExcluded(e *vp.Enum, excl map[string]int) {
+func c48NoteExcluded(e *vp.Enum, sub string, excl map[string]int) {
 	keys := make([]string, 0, len(excl))
 	for k := range excl {
 		keys = append(keys, k)
 	}
 	sort.Strings(keys)
 	for _, k := range keys {
-		e.Note(fmt.Sprintf("enumeration items excluded as known finding %s: %d", k, excl[k]))
+		e.Note(fmt.Sprintf("%s: enumeration items excluded as known finding %s: %d", sub, k, excl[k]))
 	}
 }
 
@@ -310,7 +312,19 @@ func TestVP_C48_grid(t *testing.T) {
 				}
 			}
 		}
-		c48NoteExcluded(e, excl)
+		// every (Jt,Jf) pair for the one-byte jump-class opcodes
+		jk := []uint32{1}
+		if vp.Thorough() {
+			jk = []uint32{0, 1, 0xfffff004, 0xffffffff}
+		}
+		for op := 5 + 8*shard; op < 256 && !e.Failed(); op += 8 * shards {
+			for j := 0; j < 1<<16; j++ {
+				for _, k := range jk {
+					eval(c48Raw{Op: uint16(op), Jt: uint8(j >> 8), Jf: uint8(j), K: k})
+				}
+			}
+		}
+		c48NoteExcluded(e, sub, excl)
 	})
 }
 
@@ -560,7 +574,7 @@ func TestVP_C48_typedgrid(t *testing.T) {
 				}
 			}
 		}
-		c48NoteExcluded(e, excl)
+		c48NoteExcluded(e, "typedgrid", excl)
 	})
 }
 
